@@ -607,15 +607,29 @@ static Res execute(Ctx &ctx, const Work &w, long k, long k2, long &ncalls)
 		break;
 	}
 	case W_DBLFMT: {
+		// half of the cases replace a format that is already installed (in the same or the other scope)
+		bool preset = w.flags & 2;
+		if (preset)
+			json_c_set_serialization_double_format("%.2f", w.flags & 4 ? JSON_C_OPTION_THREAD : JSON_C_OPTION_GLOBAL);
 		arm();
 		int rc = json_c_set_serialization_double_format(w.text.c_str(), w.flags & 1 ? JSON_C_OPTION_THREAD : JSON_C_OPTION_GLOBAL);
 		disarm();
+		// the library must still be usable after a refused change: the next double is printed with the old, the default
+		// or the new format - anything else (or a read of the released old format) is a defect
 		json_object *d = json_object_new_double(1.5);
 		const char *t = json_object_to_json_string(d);
 		if (rc != 0)
 		{
 			r.failed = true;
 			r.out = "set_serialization_double_format returned " + str(rc);
+			char nb[64];
+			snprintf(nb, sizeof nb, w.text.c_str(), 1.5);
+			std::string got = t ? t : "NULL";
+			if (got != "1.5" && got != "1.50" && got != nb)
+			{
+				json_object_put(d);
+				ctx.fail("state-after-refusal", "after a refused json_c_set_serialization_double_format the double 1.5 serialises as " + quote(got));
+			}
 		}
 		else
 			r.out = t ? t : "NULL";
@@ -818,7 +832,7 @@ void run_case(Choices &c, Ctx &ctx)
 	}
 	case W_DBLFMT:
 		w.text = c.coin(50) ? "%.3f" : "%.17g and a rather long tail that needs a real allocation";
-		w.flags = (int)c.pickn(2);
+		w.flags = (int)c.pickn(8);
 		break;
 	}
 	ctx.label(w.name());
